@@ -168,6 +168,29 @@ def check_title(title):
     h1 = [n for n in root.iter() if n.tag == "h1"]
     if problems or len(h1) != 1:
         out.append(("C10:title-breaks-structure", "%r -> %r" % (title, html[:200])))
+    # the stand-alone page shows the title twice, in <title> and in the heading: both are the author's text, character for character
+    # (modulo HTML white space), whatever it looks like (tags, character references, runs of blanks)
+    import shutil
+    from .. import gen_site
+    from recipe_grid.static_site.standalone_page import generate_standalone_page
+    scratch = gen_site.scratch_root()
+    try:
+        f = scratch / "page.md"
+        f.write_text(doc, encoding="utf-8")
+        try:
+            page = generate_standalone_page(f, embed_local_links=False)
+        except Exception as e:  # noqa
+            return out + [("C10:text-breaks-rendering:%s" % type(e).__name__, "stand-alone page with title %r: %s" % (title, str(e)[:120]))]
+        proot, pproblems = htmltok.tree(page)
+        want = " ".join(mr.title.split())
+        shown = [" ".join(n.text().split()) for n in proot.iter() if n.tag == "title"]
+        if pproblems or shown != [want]:
+            out.append(("C10:page-title-text-differs", "stand-alone page: <title> shows %r, the title is %r" % (shown, want)))
+        heads = [" ".join(n.text().split()) for n in proot.iter() if n.tag == "h1"]
+        if len(heads) != 1 or not heads[0].startswith(want):
+            out.append(("C10:page-title-text-differs", "stand-alone page: heading shows %r, the title is %r" % (heads, want)))
+    finally:
+        shutil.rmtree(scratch, ignore_errors=True)
     return out
 
 
@@ -286,7 +309,9 @@ def oracle(run):
     run.case(("placeholder-replay",), True, kind="placeholder-replay")
     for sig, detail in check_placeholder_replay():
         run.violate(sig, detail, {"placeholder_replay": True})
-    for title in ["Tom's \"best\" pie", "Fish & chips", "a > b", "x &amp; y", "50% rye #1", "back\\\\slash", "naïve café"]:
+    for title in ["Tom's \"best\" pie", "Fish & chips", "a > b", "x &amp; y", "50% rye #1", "back\\\\slash", "naïve café",
+                  # plain text that looks like markup, a character reference or collapsible space once it has been read
+                  "I \\<3 pie \\> cake", "R&amp;amp;D loaf", "wide   gap", "1 \\< 2 and 3 \\> 2", "\\<b\\>bold\\</b\\> bun", "&amp;lt;tag&amp;gt; tart", "Q&A;"]:
         run.case(("title", title), True, kind="title")
         for sig, detail in check_title(title):
             run.violate(sig, detail, {"title": title})
